@@ -24,6 +24,10 @@ type qEnv struct {
 	w    *qx.World
 }
 
+// deferLoadQEnv makes newQEnv return an environment whose world has not been written yet (the caller writes it inside
+// the transaction it queries in). Workers run one case at a time.
+var deferLoadQEnv bool
+
 func newQEnv(c *core.Ctx, r *core.Rand, maxThings int, small bool) (*qEnv, error) {
 	sc := schema.Build(qx.Defs())
 	path := c.TempFile("q")
@@ -32,6 +36,9 @@ func newQEnv(c *core.Ctx, r *core.Rand, maxThings int, small bool) (*qEnv, error
 		return nil, err
 	}
 	w := qx.GenWorld(r, maxThings, small)
+	if deferLoadQEnv {
+		return &qEnv{c: c, sc: sc, db: db, path: path, w: w}, nil
+	}
 	if err := qx.Load(sc, db, w, r); err != nil {
 		_ = db.Close()
 		_ = os.Remove(path)
@@ -153,7 +160,7 @@ func init() {
 		Rule: "generated datasets (0-12 things, owners, others; nulls p=0.25, empty sets, empty-string elements, case variants, shared prefixes, boundary integers, equal instants in different zones, typed and nested map values) x generated well-typed filters to depth 3 " +
 			"(scalar, path-prefixed, map-element, dotted single-valued, anyOf/allOf over direct and dotted sets, count over sets and sub-queries with skip/limit, isEmpty, bool symbols/constants, and/or/not; every operator incl. null tests; int<->float and number->string coercions), fully parenthesised. " +
 			"Every filter is answered by an independent reference evaluator and by the engine through QueryIds (canonical and re-spelled text), IterateIds, and QueryWithCursorC over an index-driven cursor provider (IteratorMatchingAnyOf); differing id sets, " +
-			"or a rejected / panicking well-typed filter, are violations. Cases the statement leaves open are executed but not judged. non-trivial = distinct (filter, dataset) whose answer is neither empty nor everything",
+			"or a rejected / panicking well-typed filter, are violations. A fifth path evaluates the text with package ast alone over an in-memory ast.Symbols; every fourth case queries the owners / others stores (3-4 hop dotted paths); every fifth case writes the dataset and runs all its queries inside one write transaction (uncommitted data). Cases the statement leaves open are executed but not judged. non-trivial = distinct (filter, dataset) whose answer is neither empty nor everything",
 		Assumptions: []string{"semantics not fixed by the statement are not judged: count/isEmpty over dotted paths, ordering of a string symbol against a number literal, map elements whose stored type differs from the literal's, icontains over non-ASCII, bare bool symbols holding null"},
 		Plan: func(tier core.Tier, seed int64) int {
 			if tier == core.Thorough {
@@ -179,7 +186,11 @@ func init() {
 
 func runC01(c *core.Ctx, idx int) {
 	r := c.Rand()
+	// every fifth case writes the dataset and runs the queries inside ONE write transaction (uncommitted data)
+	inTx := idx%5 == 4
+	deferLoadQEnv = inTx
 	env, err := newQEnv(c, r, 12, false)
+	deferLoadQEnv = false
 	if err != nil {
 		c.Violation("C01 setup", err.Error(), nil)
 		return
@@ -195,7 +206,20 @@ func runC01(c *core.Ctx, idx int) {
 	all := env.w.Ids(store)
 	nFilters := 60
 	mem := newMemWorld(env.w)
-	_ = env.db.View(func(tx *bbolt.Tx) error {
+	view := env.db.View
+	if inTx {
+		c.Count("cases_querying_uncommitted_data", 1)
+		view = func(f func(tx *bbolt.Tx) error) error {
+			return env.db.Update(nil, func(ctx boltz.MutateContext) error {
+				if err := qx.LoadCtx(ctx, env.sc, env.w, r); err != nil {
+					c.Violationf("C01 setup", nil, "loading the world: %v", err)
+					return err
+				}
+				return f(ctx.Tx())
+			})
+		}
+	}
+	_ = view(func(tx *bbolt.Tx) error {
 		for k := 0; k < nFilters; k++ {
 			depth := 0
 			if k >= nFilters/2 {
